@@ -14,3 +14,9 @@ ASSUMPTIONS = ["condition.argsort() is an oracle input of the model (checked to 
 
 def oracle(c, o):
     return SR.oracle(c, o)
+
+
+def generated(tier):
+    """source-derived obligations (G4 formulas): regenerated from /repo's current source text on every run"""
+    from ..translate.tables import obligations
+    return obligations("C02")
